@@ -87,6 +87,10 @@ def lateFlag : FState → Bool
   | .awaitData .. => true
   | _ => false
 
+/-- Not in a token visit, or (the token was passed to the station itself) in one that begins now. -/
+def NVt (st : FState) (tx : Option Bytes) (now : Int) : Prop :=
+  visitTime st = none ∨ visitTime st = some now ∧ lateFlag st = false ∧ tx ≠ none
+
 theorem transmit_hk (c : Ctx) (now : Int) (b : Bytes) (c' : Ctx) (h : transmit c now b = .ok c') :
     HK c.s c'.s ∧ c'.s.st = c.s.st ∧ c'.tx = some b := by
   unfold transmit at h
@@ -95,7 +99,7 @@ theorem transmit_hk (c : Ctx) (now : Int) (b : Bytes) (c' : Ctx) (h : transmit c
   · cases h; exact ⟨hk_markTx _ _ _, rfl, rfl⟩
 
 theorem passTokenOn_hk (c : Ctx) (now : Int) (att : Attempt) (c' : Ctx) (h : passTokenOn c now att = .ok c') :
-    HK c.s c'.s ∧ (visitTime c'.s.st = none ∨ visitTime c'.s.st = some now ∧ lateFlag c'.s.st = false) := by
+    HK c.s c'.s ∧ NVt c'.s.st c'.tx now := by
   unfold passTokenOn at h
   dsimp only at h
   cases h1 : transmit c now (sendToken (UInt8.ofNat c.s.ring.ns) (UInt8.ofNat c.s.p.address)) with
@@ -103,17 +107,17 @@ theorem passTokenOn_hk (c : Ctx) (now : Int) (att : Attempt) (c' : Ctx) (h : pas
   | ok c1 =>
     rw [h1] at h
     simp only [Res.bind] at h
-    obtain ⟨a1, -, -⟩ := transmit_hk _ _ _ _ h1
+    obtain ⟨a1, -, a3⟩ := transmit_hk _ _ _ _ h1
     split at h
     · obtain ⟨s', hs', rfl⟩ := tr_cases _ _ _ _ h
       have := toUseToken_eq hs'; subst this
-      exact ⟨⟨a1.1, a1.2⟩, Or.inr ⟨rfl, rfl⟩⟩
+      exact ⟨⟨a1.1, a1.2⟩, Or.inr ⟨rfl, rfl, by simp only [upd]; rw [a3]; simp⟩⟩
     · obtain ⟨s', hs', rfl⟩ := tr_cases _ _ _ _ h
       have := toCheckTokenPass_eq hs'; subst this
       exact ⟨⟨a1.1, a1.2⟩, Or.inl rfl⟩
 
 theorem doPassToken_hk (c : Ctx) (now : Int) (c' : Ctx) (h : doPassToken c now = .ok c') :
-    HK c.s c'.s ∧ (visitTime c'.s.st = none ∨ visitTime c'.s.st = some now ∧ lateFlag c'.s.st = false) := by
+    HK c.s c'.s ∧ NVt c'.s.st c'.tx now := by
   unfold doPassToken at h
   split at h
   · rename_i doGap att hst
@@ -166,7 +170,7 @@ theorem doPassToken_hk (c : Ctx) (now : Int) (c' : Ctx) (h : doPassToken c now =
   · cases h
 
 theorem passNow_hk (c : Ctx) (now : Int) (c' : Ctx) (h : passNow c now = .ok c') :
-    HK c.s c'.s ∧ (visitTime c'.s.st = none ∨ visitTime c'.s.st = some now ∧ lateFlag c'.s.st = false) := by
+    HK c.s c'.s ∧ NVt c'.s.st c'.tx now := by
   unfold passNow at h
   cases h1 : tr c (fun s => toPassToken s true .first) "transition_pass_token" with
   | panic s => rw [h1] at h; cases h
@@ -247,11 +251,11 @@ theorem appsTransmit_hk (now : Int) (hp : Bool) (tk : Int) (f : Bool) : ∀ (k :
 
 /-- Outcome of a visit step: still the same visit, or the token has been passed on (possibly to the
 station itself when it is alone). -/
-def VisOut (st : FState) (tk now : Int) : Prop :=
-  visitTime st = some tk ∧ lateFlag st = true ∨ visitTime st = none ∨ visitTime st = some now ∧ lateFlag st = false
+def VisOut (st : FState) (tx : Option Bytes) (tk now : Int) : Prop :=
+  visitTime st = some tk ∧ lateFlag st = true ∨ NVt st tx now
 
 theorem useTokenGo_hk (c : Ctx) (now : Int) (d : UseData) (hp : Bool) (c' : Ctx)
-    (h : useTokenGo c now d hp = .ok c') : HK c.s c'.s ∧ VisOut c'.s.st d.tokenTime now := by
+    (h : useTokenGo c now d hp = .ok c') : HK c.s c'.s ∧ VisOut c'.s.st c'.tx d.tokenTime now := by
   unfold useTokenGo at h
   dsimp only at h
   split at h
@@ -266,6 +270,12 @@ theorem useTokenGo_hk (c : Ctx) (now : Int) (d : UseData) (hp : Bool) (c' : Ctx)
     obtain ⟨b1, b2⟩ := passNow_hk c1 now c' h
     exact ⟨HK.trans a1 b1, Or.inr b2⟩
 
+theorem holdUpdate_last (s : Station) (d : UseData) : (holdUpdate s d).lastTokenTime = d.tokenTime := by
+  unfold holdUpdate
+  split
+  · rfl
+  · rename_i h; simpa using h
+
 theorem holdUpdate_st (s : Station) (d : UseData) : (holdUpdate s d).st = s.st ∧ (holdUpdate s d).p = s.p := by
   unfold holdUpdate; split <;> exact ⟨rfl, rfl⟩
 
@@ -275,7 +285,7 @@ or as the first cycle of the visit. -/
 theorem doUseToken_hk (c : Ctx) (now : Int) (d : UseData) (fcd : Bool) (c' : Ctx)
     (hst : c.s.st = .useToken d fcd) (htx : c.tx = none) (h : doUseToken c now = .ok c') :
     HK (holdUpdate c.s d) c'.s ∧
-    (c'.s.st = .useToken d fcd ∧ c'.tx = none ∨ VisOut c'.s.st d.tokenTime now) ∧
+    (c'.s.st = .useToken d fcd ∧ c'.tx = none ∨ VisOut c'.s.st c'.tx d.tokenTime now) ∧
     (c'.tx ≠ none → lateFlag c'.s.st = true →
       now < (holdUpdate c.s d).endTokenHoldTime ∨ fcd = false) := by
   unfold doUseToken at h
@@ -304,7 +314,7 @@ theorem doUseToken_hk (c : Ctx) (now : Int) (d : UseData) (fcd : Bool) (c' : Ctx
       · obtain ⟨a1, a2⟩ := passNow_hk _ now c' h
         refine ⟨hw.1.trans a1, Or.inr (Or.inr a2), ?_⟩
         intro _ hl
-        rcases a2 with a2 | ⟨a2, a3⟩
+        rcases a2 with a2 | ⟨a2, a3, -⟩
         · exfalso
           revert hl a2
           cases c'.s.st <;> simp [visitTime, lateFlag]
@@ -314,6 +324,9 @@ theorem doUseToken_hk (c : Ctx) (now : Int) (d : UseData) (fcd : Bool) (c' : Ctx
 
 /-- Not in a token visit, or in one that begins right now. -/
 def NVs (st : FState) (now : Int) : Prop := visitTime st = none ∨ visitTime st = some now ∧ lateFlag st = false
+
+theorem NVt.nvs {st : FState} {tx : Option Bytes} {now : Int} (h : NVt st tx now) : NVs st now :=
+  h.imp id (fun h => ⟨h.1, h.2.1⟩)
 
 theorem hk_getOrInsert (s : Station) (now : Int) : HK s (getOrInsertLast s now).1 ∧ (getOrInsertLast s now).1.st = s.st := by
   unfold getOrInsertLast
@@ -457,7 +470,7 @@ theorem doCheckTokenPass_hk (c : Ctx) (now : Int) (c' : Ctx) (h : doCheckTokenPa
           · cases h1
           · exact hw.1.trans (tr_hk _ _ _ (stHK_toPassToken false .first) _ h1)
       obtain ⟨b1, b2⟩ := doPassToken_hk c1 now c' h2
-      exact ⟨hc1.trans b1, b2⟩
+      exact ⟨hc1.trans b1, b2.nvs⟩
     · split at h
       · cases h
       · cases h
@@ -526,7 +539,7 @@ theorem doAwaitStatus_hk (c : Ctx) (now : Int) (c' : Ctx) (h : doAwaitStatusResp
         obtain ⟨c2, h1, h2⟩ := bind_ok_inv h
         have e1 := tr_hk _ _ _ (stHK_toPassToken false .first) _ h1
         obtain ⟨b1, b2⟩ := doPassToken_hk c2 now c' h2
-        exact ⟨(a1.trans e1).trans b1, b2⟩
+        exact ⟨(a1.trans e1).trans b1, b2.nvs⟩
       | unexpected =>
         simp only at h
         obtain ⟨s', hs', rfl⟩ := tr_cases _ _ _ _ h
@@ -561,11 +574,13 @@ structure HoldRel (s : Station) (c' : Ctx) (now : Int) : Prop where
   keep : visitTime s.st = none → HK s c'.s
   vis : c'.s.st = s.st ∨ (visitTime c'.s.st = visitTime s.st ∧ visitTime s.st ≠ none ∧ lateFlag c'.s.st = true) ∨ NVs c'.s.st now
   guard : c'.tx ≠ none → lateFlag c'.s.st = true → now < c'.s.endTokenHoldTime ∨ lateFlag s.st = false
+  fresh : ∀ tk, visitTime s.st = some tk → c'.tx = none → visitTime c'.s.st = some tk ∨ visitTime c'.s.st = none
+  recd : ∀ tk, visitTime s.st = some tk → c'.tx ≠ none → c'.s.lastTokenTime = tk
 
 theorem doUseToken_rel (c : Ctx) (now : Int) (d : UseData) (fcd : Bool) (c' : Ctx)
     (hst : c.s.st = .useToken d fcd) (htx : c.tx = none) (h : doUseToken c now = .ok c') : HoldRel c.s c' now := by
   obtain ⟨a1, a2, a3⟩ := doUseToken_hk c now d fcd c' hst htx h
-  refine ⟨?_, ?_, ?_, ?_⟩
+  refine ⟨?_, ?_, ?_, ?_, ?_, ?_⟩
   · intro tk htk
     rw [hst] at htk
     cases htk
@@ -574,11 +589,21 @@ theorem doUseToken_rel (c : Ctx) (now : Int) (d : UseData) (fcd : Bool) (c' : Ct
   · rcases a2 with ⟨b1, -⟩ | ⟨b1, b2⟩ | b1
     · exact .inl (b1.trans hst.symm)
     · exact .inr (.inl ⟨by rw [b1, hst]; rfl, by rw [hst]; simp [visitTime], b2⟩)
-    · exact .inr (.inr b1)
+    · exact .inr (.inr b1.nvs)
   · intro h1 h2
     rcases a3 h1 h2 with b | b
     · exact .inl (by rw [a1.2]; exact b)
     · exact .inr (by rw [hst]; exact b)
+  · intro tk htk hn
+    rw [hst] at htk; cases htk
+    rcases a2 with ⟨b1, -⟩ | ⟨b1, -⟩ | b1 | ⟨-, -, b3⟩
+    · exact .inl (by rw [b1]; rfl)
+    · exact .inl b1
+    · exact .inr b1
+    · exact absurd hn b3
+  · intro tk htk _
+    rw [hst] at htk; cases htk
+    rw [a1.1]; exact holdUpdate_last c.s d
 
 theorem doAwaitData_rel (c : Ctx) (now : Int) (a : Nat) (d : UseData) (c' : Ctx)
     (hst : c.s.st = .awaitData a d) (htx : c.tx = none) (h : doAwaitDataResponse c now = .ok c') : HoldRel c.s c' now := by
@@ -599,8 +624,11 @@ theorem doAwaitData_rel (c : Ctx) (now : Int) (a : Nat) (d : UseData) (c' : Ctx)
     exact ⟨⟨e1.1, e1.2⟩, rfl, e2⟩
   have done : ∀ c1 : Ctx, HK c.s c1.s → c1.s.st = .useToken d true → c1.tx = none → HoldRel c.s c1 now := by
     intro c1 e1 e2 e3
-    refine ⟨fun tk _ => .inl e1, fun _ => e1, .inr (.inl ⟨by rw [e2, hst]; rfl, by rw [hv]; simp, by rw [e2]; rfl⟩), ?_⟩
-    intro hh; exact absurd e3 hh
+    refine ⟨fun tk _ => .inl e1, fun _ => e1, .inr (.inl ⟨by rw [e2, hst]; rfl, by rw [hv]; simp, by rw [e2]; rfl⟩),
+      fun hh => absurd e3 hh, ?_, fun _ _ hh => absurd e3 hh⟩
+    intro tk htk _
+    rw [hv] at htk; cases htk
+    exact .inl (by rw [e2]; rfl)
   split at h
   · cases h
   · cases h
@@ -615,7 +643,8 @@ theorem doAwaitData_rel (c : Ctx) (now : Int) (a : Nat) (d : UseData) (c' : Ctx)
         split at hs' <;> first | (cases hs'; rfl) | cases hs'
       have hk : HK c.s s' := (hk_markRx c.s now).trans e
       exact ⟨fun tk _ => .inl hk, fun _ => hk, .inr (.inr (.inl (by show visitTime s'.st = none; rw [est]; rfl))),
-        fun _ hl => by rw [show lateFlag s'.st = false from by rw [est]; rfl] at hl; cases hl⟩
+        (fun hh => absurd htx hh), (fun _ _ _ => .inr (by show visitTime s'.st = none; rw [est]; rfl)),
+        (fun _ _ hh => absurd htx hh)⟩
   · -- nothing received
     have hw := hk_getOrInsert c.s now
     rcases ite_inv h with ⟨_, h⟩ | ⟨_, h⟩
@@ -628,7 +657,7 @@ theorem doAwaitData_rel (c : Ctx) (now : Int) (a : Nat) (d : UseData) (c' : Ctx)
         have := toUseToken_eq hs'; subst this
         cases h4
         exact getOrInsert_p c.s now
-      refine ⟨?_, ?_, ?_, ?_⟩
+      refine ⟨?_, ?_, ?_, ?_, ?_, ?_⟩
       · intro tk htk
         rw [hv] at htk; cases htk
         exact holdUpdate_F1 c.s c2.s d c' e1 hp2 a1
@@ -636,20 +665,33 @@ theorem doAwaitData_rel (c : Ctx) (now : Int) (a : Nat) (d : UseData) (c' : Ctx)
       · rcases a2 with ⟨b1, -⟩ | ⟨b1, b2⟩ | b1
         · exact .inr (.inl ⟨by rw [b1, hst]; rfl, by rw [hv]; simp, by rw [b1]; rfl⟩)
         · exact .inr (.inl ⟨by rw [b1, hst]; rfl, by rw [hv]; simp, b2⟩)
-        · exact .inr (.inr b1)
+        · exact .inr (.inr b1.nvs)
       · intro h1' h2'
         rcases a3 h1' h2' with b | b
         · exact .inl (by rw [a1.2]; exact b)
         · cases b
+      · intro tk htk hn
+        rw [hv] at htk; cases htk
+        rcases a2 with ⟨b1, -⟩ | ⟨b1, -⟩ | b1 | ⟨-, -, b3⟩
+        · exact .inl (by rw [b1]; rfl)
+        · exact .inl b1
+        · exact .inr b1
+        · exact absurd hn b3
+      · intro tk htk _
+        rw [hv] at htk; cases htk
+        rw [a1.1]; exact holdUpdate_last c2.s d
     · cases h
-      exact ⟨fun tk _ => .inl hw.1, fun _ => hw.1, .inl hw.2, fun hh => absurd htx hh⟩
+      exact ⟨fun tk _ => .inl hw.1, fun _ => hw.1, .inl hw.2, fun hh => absurd htx hh,
+        (fun tk htk _ => .inl (by rw [show (checkSlotExpired c.s now).1.st = c.s.st from hw.2]; exact htk)),
+        (fun _ _ hh => absurd htx hh)⟩
 
 theorem lateFlag_of_none (st : FState) (h : visitTime st = none) : lateFlag st = false := by
   cases st <;> first | rfl | (simp [visitTime] at h)
 
 theorem HoldRel.of_nv {s : Station} {c' : Ctx} {now : Int} (hv : visitTime s.st = none) (h1 : HK s c'.s)
     (h2 : NVs c'.s.st now) : HoldRel s c' now := by
-  refine ⟨fun tk htk => (by rw [hv] at htk; cases htk), fun _ => h1, .inr (.inr h2), ?_⟩
+  refine ⟨fun tk htk => (by rw [hv] at htk; cases htk), fun _ => h1, .inr (.inr h2), ?_,
+    fun tk htk => (by rw [hv] at htk; cases htk), fun tk htk => (by rw [hv] at htk; cases htk)⟩
   intro _ hl
   rcases h2 with h2 | ⟨-, h2⟩
   · rw [lateFlag_of_none _ h2] at hl; cases hl
@@ -657,7 +699,7 @@ theorem HoldRel.of_nv {s : Station} {c' : Ctx} {now : Int} (hv : visitTime s.st 
 
 theorem HoldRel.of_eq {s s0 : Station} {c' : Ctx} {now : Int} (h1 : HK s s0) (h2 : s0.st = s.st) (h3 : s0.p = s.p)
     (h : HoldRel s0 c' now) : HoldRel s c' now := by
-  refine ⟨?_, ?_, ?_, ?_⟩
+  refine ⟨?_, ?_, ?_, ?_, ?_, ?_⟩
   · intro tk htk
     rcases h.upd tk (by rw [h2]; exact htk) with a | ⟨a1, a2, a3⟩
     · exact .inl (h1.trans a)
@@ -665,6 +707,8 @@ theorem HoldRel.of_eq {s s0 : Station} {c' : Ctx} {now : Int} (h1 : HK s s0) (h2
   · intro hn; exact h1.trans (h.keep (by rw [h2]; exact hn))
   · rw [← h2]; exact h.vis
   · rw [← h2]; exact h.guard
+  · rw [← h2]; exact h.fresh
+  · rw [← h2]; exact h.recd
 
 /-- States of a station in a running ring. -/
 def RingState (st : FState) : Prop :=
@@ -684,7 +728,8 @@ theorem poll_holdRel (s : Station) (apps : Apps) (now : Int) (phy : Bool) (rx : 
   · cases h
     have hk : HK s (markBusActivity s now) := by simp [HK, markBusActivity]
     have hs : (markBusActivity s now).st = s.st := by simp [markBusActivity]
-    exact ⟨fun tk _ => .inl hk, fun _ => hk, .inl hs, fun hh => absurd rfl hh⟩
+    exact ⟨fun tk _ => .inl hk, fun _ => hk, .inl hs, fun hh => absurd rfl hh,
+      (fun tk htk _ => .inl (by show visitTime (markBusActivity s now).st = some tk; rw [hs]; exact htk)), (fun _ _ hh => absurd rfl hh)⟩
   · obtain ⟨f1, f2, -, -, -, -, f7, f8⟩ := checkBA_fields s now rx.length
     refine HoldRel.of_eq (s0 := checkBusActivity s now rx.length) ⟨f7, f8⟩ f1 f2 ?_
     simp only [upd] at h
